@@ -143,4 +143,60 @@ theorem cinv_remote_catches_up {s : CSys} (h : CInv s) : applyAll s.remote s.rt.
   unfold CSys.remote
   rw [← applyAll_append, h.fold, h.rep]
 
+/-! ### per-key sampling through both layers -/
+
+/-- an emitted update carries the value the lane holds for that key at that moment -/
+theorem emitOf_upd_current {s : AgentQ} {k : Nat} {v : Bytes} (h : emitOf s = some (.upd k v)) :
+    s.content k = some v := by
+  unfold emitOf at h
+  cases hq : s.queue with
+  | nil => simp [hq, resolveHead] at h
+  | cons e rest =>
+    rw [hq] at h
+    cases e with
+    | upd k' v' =>
+      simp only [resolveHead] at h
+      cases hc : s.content k' with
+      | none => simp [hc] at h
+      | some w => simp [hc] at h; obtain ⟨h1, h2⟩ := h; subst h1; subst h2; exact hc
+    | rem k' => simp [resolveHead] at h
+    | clear => simp [resolveHead] at h
+
+/-- a remove is emitted only while the lane's map lacks the key -/
+theorem emitOf_rem_absent {s : AgentQ} (hi : AInv s) {k : Nat} (h : emitOf s = some (.rem k)) :
+    s.content k = none := by
+  unfold emitOf at h
+  cases hq : s.queue with
+  | nil => simp [hq, resolveHead] at h
+  | cons e rest =>
+    rw [hq] at h
+    cases e with
+    | upd k' v' =>
+      simp only [resolveHead] at h
+      cases hc : s.content k' <;> simp [hc] at h
+    | rem k' =>
+      simp [resolveHead] at h; subst h
+      have := hi.per k'
+      rw [hq] at this
+      simp [findKey, MapOp.key?, isRem] at this
+      exact this.2
+    | clear => simp [resolveHead] at h
+
+theorem csampled_step {s : CSys} (h : CInv s) (x : Nat) (hs : Sampled x s.rt) (op : COp) :
+    Sampled x (cStep s op).rt := by
+  cases op with
+  | deliver => exact sampled_pop x hs
+  | lane o =>
+    show Sampled x (pushOpt s.rt (emitted s.a o))
+    cases emitted s.a o with
+    | none => exact hs
+    | some e => exact sampled_push h.wf x hs e
+
+theorem csampled_run (x : Nat) : ∀ (ops : List COp) (s : CSys), CInv s → Sampled x s.rt →
+    Sampled x (cRun s ops).rt := by
+  intro ops
+  induction ops with
+  | nil => intro s _ h; exact h
+  | cons op rest ih => intro s hi h; exact ih _ (cinv_step hi op) (csampled_step hi x h op)
+
 end SwimVerif.WT
